@@ -115,6 +115,25 @@ def step (st : Unit) (j : Json) : Unit × Json :=
             ("val_losses", Json.arr (st.valLosses.map floatToJson).toArray),
             ("pos", Json.num (JsonNumber.fromNat st.rng.gen.pos))])
         pure ((), okJson (Json.arr outs))
+    | "cfg_call" =>
+        -- accept / reject decision of a configuration setter (Model/Batcher.lean `applyCall`)
+        let kind ← strField j "kind"
+        let v : CfgVal := match j.getObjVal? "value" with
+          | .ok .null => .none
+          | .ok (.num n) => if n.exponent == 0 then .int n.mantissa else .float n.toFloat
+          | .ok (.str s) => .str s
+          | .ok _ => .other
+          | .error _ => .none
+        let call : CfgCall := match kind with
+          | "batch_size" => .batchSize v
+          | "val_ratio" => .valRatio v
+          | "val_mode" => .valMode v
+          | _ => .rng v
+        let s0 : Session Nat Float := { recon := { rng := { rngSeed := some 1, gen := { seed := 1, pos := 0 } }, params := 0,
+                                                   initParams := 0, iterLosses := [], valLosses := [] },
+                                        batchSize := 12, valRatio := 0.0, valMode := .grid }
+        let r := applyCall 0 s0 call
+        pure ((), okJson (Json.mkObj [("rejected", Json.bool r.2), ("batch_size", Json.num (JsonNumber.fromNat r.1.batchSize))]))
     | "subdivide" =>
         let n ← natField j "n"
         let nb ← optNat j "nb"
